@@ -30,8 +30,6 @@ def fmtArr (M N : Nat) (f : Nat → Nat → Cx Float) : String :=
   " ".intercalate ((List.range M).flatMap fun k => (List.range N).flatMap fun l =>
     let z := f k l; [fmtFloat z.re, fmtFloat z.im])
 
-def conjArr (a : Array (Array (Cx Float))) : Array (Array (Cx Float)) := a.map fun r => r.map Cx.conj
-
 def step (t : List String) : String :=
   match t with
   | "spec2" :: dir :: m :: n :: M :: N :: rest =>
@@ -59,10 +57,11 @@ def step (t : List String) : String :=
     | some dir, some m, some n, some M, some N, some K', some L, some (qy :: qx :: s0 :: s1 :: data) =>
       match parseArr m n data with
       | some f =>
-        let run := fun (g : Array (Array (Cx Float))) =>
-          czt2 eFwd nrmF wiringAxis0 wiringAxis1 (cztGlue m M K') (cztGlue n N L) (m, n) (M, N) (K', L)
-            (alphaOf m qy) (alphaOf n qx) (s0, s1) g
-        let out := if dir < 0 then run f else conjArr (run (conjArr f))
+        let out := if dir < 0
+          then czt2 eFwd nrmF wiringAxis0 wiringAxis1 (cztGlue m M K') (cztGlue n N L) (m, n) (M, N) (K', L)
+            (alphaOf m qy) (alphaOf n qx) (s0, s1) f
+          else iczt2 Cx.conj eFwd nrmF wiringAxis0 wiringAxis1 (cztGlue m M K') (cztGlue n N L) (m, n) (M, N) (K', L)
+            (alphaOf m qy) (alphaOf n qx) (s0, s1) f
         fmtArr M N (rd2 out)
       | none => "bad-op"
     | _, _, _, _, _, _, _, _ => "bad-op"
